@@ -24,6 +24,9 @@ ROWS = [
     {"x": 1.0, "i": 0, "b": False, "t": "2010-01-04"},
     {"x": 3.0, "i": -3, "b": True, "t": "2020-01-31 12:00:00"},
 ]
+# a large-integer column (identifiers, nanosecond counters): three of them no longer fit an int64 sum
+for _k, _r in enumerate(ROWS):
+    _r["L"] = 4 * 10 ** 18 + 1024 * _k
 
 FEATURES = ["x", "i", "b", "t", "x:i", "i:b", "b:x", "t:x", "x:b", "i:x", "t:x:b", "x:i:b", "t:i:x"]
 
@@ -47,7 +50,8 @@ def frame(rows):
     return pd.DataFrame({"x": np.array([r["x"] for r in rows], dtype="float64"),
                          "i": np.array([r["i"] for r in rows], dtype="int64"),
                          "b": np.array([r["b"] for r in rows], dtype=bool),
-                         "t": pd.to_datetime([pd.Timestamp(r["t"]) for r in rows])})
+                         "t": pd.to_datetime([pd.Timestamp(r["t"]) for r in rows]),
+                         "L": np.array([r["L"] for r in rows], dtype="int64")})
 
 
 # ------------------------------------------------------------------ independent builder from the returned specs
@@ -78,8 +82,8 @@ def direct_tree(bin_specs, var_dtype, cols):
         s = spec_for(bin_specs, var_dtype, cols, cols.index(col))
         if np.issubdtype(dt, np.bool_):
             h = hg.Categorize(q, h)
-        elif "binWidth" in s:
-            h = hg.SparselyBin(s["binWidth"], q, h, origin=s.get("origin", 0.0))
+        elif "binWidth" in s or "bin_width" in s:
+            h = hg.SparselyBin(s.get("binWidth", s.get("bin_width")), q, h, origin=s.get("origin", s.get("bin_offset", 0.0)))
         elif "num" in s:
             h = hg.Bin(int(s["num"]), s["low"], s["high"], q, h)
         elif "edges" in s:
@@ -113,9 +117,9 @@ def row_values(rows):
     """The columns as a numpy record array (timestamps as integer nanoseconds), for fill.numpy on the direct tree.
     (Row-wise filling would disagree with the vectorised path on data that sit exactly on a non-dyadic auto-binned edge;
     C03 relates the two paths, C14 only relates make_histograms to the primitive API.)"""
-    arr = np.zeros(len(rows), dtype=[("x", "f8"), ("i", "i8"), ("b", "?"), ("t", "i8")])
+    arr = np.zeros(len(rows), dtype=[("x", "f8"), ("i", "i8"), ("b", "?"), ("t", "i8"), ("L", "f8")])
     for k, r in enumerate(rows):
-        arr[k] = (float(r["x"]), int(r["i"]), bool(r["b"]), int(pd.Timestamp(r["t"]).value))
+        arr[k] = (float(r["x"]), int(r["i"]), bool(r["b"]), int(pd.Timestamp(r["t"]).value), float(r["L"]))
     return arr.view(np.recarray)
 
 
@@ -133,8 +137,9 @@ def rowwise_exact(bin_specs, var_dtype, cols, rows):
             v = float(pd.Timestamp(r["t"]).value) if col == "t" else float(r[col])
             if not math.isfinite(v):
                 continue
-            if "binWidth" in s:
-                if not A.exact_sparse_index(float(s["binWidth"]), float(s.get("origin", 0.0)), v)[1]:
+            if "binWidth" in s or "bin_width" in s:
+                if not A.exact_sparse_index(float(s.get("binWidth", s.get("bin_width"))),
+                                            float(s.get("origin", s.get("bin_offset", 0.0))), v)[1]:
                     return False
             elif "num" in s:
                 lo, hi = float(s["low"]), float(s["high"])
@@ -144,8 +149,8 @@ def rowwise_exact(bin_specs, var_dtype, cols, rows):
 
 
 def row_dicts(rows):
-    return [{"x": float(r["x"]), "i": float(r["i"]), "b": bool(r["b"]), "t": float(pd.Timestamp(r["t"]).value)}
-            for r in rows]
+    return [{"x": float(r["x"]), "i": float(r["i"]), "b": bool(r["b"]), "t": float(pd.Timestamp(r["t"]).value),
+             "L": float(r["L"])} for r in rows]
 
 
 def set_partitions(n, maxblocks):
@@ -203,6 +208,9 @@ def check_frame(rows_idx, config, maxblocks):
         out.append(FW.violation(PROP, "frame", "make_histograms(%s)" % name.split("/")[0], "input-dataframe-modified", args, {}))
     vals = row_values(rows)
     docs = {}
+    # what the caller asked for is the specification; the returned specs only complete it
+    asked = dict(specs)
+    asked.update(kw.get("bin_specs") or {})
     for f, h in hists.items():
         fa = dict(args, feature=f)
         docs[f] = h.toJson()
@@ -211,8 +219,8 @@ def check_frame(rows_idx, config, maxblocks):
                                     {"entries": h.entries, "rows": len(rows)}))
             continue
         try:
-            d = direct_tree(specs, vdt, f.split(":"))
-            if rowwise_exact(specs, vdt, f.split(":"), rows):
+            d = direct_tree(asked, vdt, f.split(":"))
+            if rowwise_exact(asked, vdt, f.split(":"), rows):
                 # bit-exact specification: the documented tree filled row by row (path validated by C02)
                 for v in row_dicts(rows):
                     d.fill(v)
@@ -274,6 +282,23 @@ def configs(tier):
           ("time_axis/unit", {"time_axis": "t", "binning": "unit", "time_width": "1w", "time_offset": "2020-01-06"}),
           ("time_axis/features", {"time_axis": "t", "features": ["t:x", "t:b", "t:i:x"], "binning": "auto",
                                   "bin_specs": {"x": {"num": 2, "low": 0.0, "high": 2.0}}})]
+    T0, T1, T2 = (float(pd.Timestamp(x).value) for x in ("2020-01-01", "2020-02-01", "2021-01-01"))
+    cs += [
+        # leaf aggregators over large integers and timestamps (their sums do not fit an int64)
+        ("explicit-C", {"features": ["L", "t", "b:L", "i:t", "x:L"], "binning": "unit",
+                        "bin_specs": {"L": {"sum": True}, "t": {"average": True}, "b:L": [{}, {"sum": True}],
+                                      "i:t": [{"edges": [0, 2]}, {"sum": True}],
+                                      "x:L": [{"num": 2, "low": 0.0, "high": 2.0}, {"max": True}]}}),
+        # a time axis whose binning is given explicitly, in every spelling the filler accepts
+        ("time_axis/edges", {"time_axis": "t", "features": ["t:x", "t:b"], "binning": "unit",
+                             "bin_specs": {"t": {"edges": [T0, T1, T2]}}}),
+        ("time_axis/num", {"time_axis": "t", "features": ["t:x", "t:i:b"], "binning": "unit",
+                           "bin_specs": {"t": {"num": 4, "low": T0, "high": T2}}}),
+        ("time_axis/bin_width", {"time_axis": "t", "features": ["t:x"], "binning": "unit",
+                                 "bin_specs": {"t": {"bin_width": float(pd.Timedelta(days=7).value), "bin_offset": T0}}}),
+        ("time_axis/centers", {"time_axis": "t", "features": ["t:b"], "binning": "auto",
+                               "bin_specs": {"t": {"centers": [T0, T1, T2]}}}),
+    ]
     return cs
 
 
